@@ -100,7 +100,8 @@ func (w *World) CheckDecisionProofs() (nontrivial int) {
 			if j.Vote.Round != 0 || j.Vote.Phase != gpbft.DECIDE_PHASE {
 				w.Fail("C03", "C03/proof/round-phase", fmt.Sprintf("%s: justification is for round %d phase %s, want round 0 DECIDE", who, j.Vote.Round, j.Vote.Phase))
 			}
-			if !j.Vote.SupplementalData.Eq(&ic.Supp) {
+			supp := n.SuppOf(inst)
+			if !j.Vote.SupplementalData.Eq(&supp) {
 				w.Fail("C03", "C03/proof/supplement", fmt.Sprintf("%s: justification carries foreign supplemental data", who))
 			}
 			var idx []int
@@ -132,7 +133,7 @@ func (w *World) CheckDecisionProofs() (nontrivial int) {
 			if !vref.StrongQuorum(sum, total) {
 				w.Fail("C03", "C03/proof/not-a-quorum", fmt.Sprintf("%s: signers %v hold %d of %d scaled power", who, idx, sum, total))
 			}
-			payload := vref.PayloadSigningBytes(w.Cfg.NN, inst, 0, gpbft.DECIDE_PHASE, ic.Supp, j.Vote.Value)
+			payload := vref.PayloadSigningBytes(w.Cfg.NN, inst, 0, gpbft.DECIDE_PHASE, supp, j.Vote.Value)
 			if !bytes.Equal(vcrypto.AggregateFor(ic.Table.PublicKeys(), idx, payload), j.Signature) {
 				w.Fail("C03", "C03/proof/aggregate", fmt.Sprintf("%s: aggregate does not verify over the DECIDE payload of exactly the decided value", who))
 			}
@@ -144,7 +145,7 @@ func (w *World) CheckDecisionProofs() (nontrivial int) {
 			// the supplemental data of the instance commits to whatever the configuration says;
 			// certificate validation additionally demands that it is the CID of the next table, so
 			// worlds are configured with Supp.PowerTable = CID(next table) when this check is used
-			if ic.Supp.PowerTable == vref.TableCID(next) {
+			if supp.PowerTable == vref.TableCID(next) {
 				cert, err := certs.NewFinalityCertificate(certs.MakePowerTableDiff(ic.Table, next), j)
 				if err != nil {
 					w.Fail("C03", "C03/cert/construction", fmt.Sprintf("%s: NewFinalityCertificate: %v", who, err))
